@@ -76,8 +76,9 @@ type world struct {
 	u    *universe
 	ctx  *zed.Context // the context under test
 	src  *zed.Context // "another context": where foreign types come from
-	bufs map[int][]byte
-	raw  map[int][]byte // copies of non-canonical type values passed in
+	bufs map[int][]byte // caller buffers by the spec's buffer name (names are reused)
+	held [][]byte       // every caller buffer ever passed to LookupByValue
+	raw  [][]byte       // copies of the non-canonical type values passed in
 	// first observed type value of every type object (stability oracle)
 	firstTV map[zed.Type][]byte
 	procs   map[int]*proc
@@ -90,7 +91,7 @@ type world struct {
 }
 
 func newWorld(c *core.Ctx, u *universe, witness any) *world {
-	w := &world{c: c, u: u, ctx: zed.NewContext(), src: zed.NewContext(), bufs: map[int][]byte{}, raw: map[int][]byte{},
+	w := &world{c: c, u: u, ctx: zed.NewContext(), src: zed.NewContext(), bufs: map[int][]byte{},
 		firstTV: map[zed.Type][]byte{}, procs: map[int]*proc{}, witness: witness}
 	w.mapper = zed.NewMapper(w.ctx)
 	return w
@@ -203,7 +204,12 @@ func (w *world) prepare(ev Event) (func() callResult, error) {
 			}, nil
 		case "translate":
 			if ext == nil {
-				return nil, fmt.Errorf("translate: cannot build %s in the foreign context", ordKey(*ev.OT))
+				// The foreign context cannot hold this type (duplicate field
+				// names); TranslateType(ext) is LookupByValue(EncodeTypeValue(ext)).
+				return func() callResult {
+					typ, err := w.ctx.LookupByValue(tv)
+					return callResult{typ: typ, err: err}
+				}, nil
 			}
 			useMapper := (w.u.Idx+ev.B)%2 == 1
 			return func() callResult {
@@ -217,8 +223,9 @@ func (w *world) prepare(ev Event) (func() callResult, error) {
 		default:
 			buf := append(make([]byte, 0, len(tv)+8), tv...) // the caller's own buffer
 			w.bufs[ev.B] = buf
+			w.held = append(w.held, buf)
 			if ev.M == "raw" {
-				w.raw[ev.B] = append([]byte(nil), tv...)
+				w.raw = append(w.raw, append([]byte(nil), tv...))
 			}
 			return func() callResult {
 				typ, err := w.ctx.LookupByValue(buf)
@@ -516,19 +523,20 @@ func (w *world) observe() {
 	}
 }
 
-// aliases reports which caller buffer the slice shares memory with (0: none).
+// aliases reports whether the slice shares memory with a caller buffer
+// (0: none, else the 1-based index in w.held).
 func (w *world) aliases(b []byte) int {
 	if len(b) == 0 {
 		return 0
 	}
 	p := uintptr(unsafe.Pointer(unsafe.SliceData(b)))
-	for id, buf := range w.bufs {
+	for i, buf := range w.held {
 		if cap(buf) == 0 {
 			continue
 		}
 		lo := uintptr(unsafe.Pointer(unsafe.SliceData(buf[:cap(buf)])))
 		if p >= lo && p < lo+uintptr(cap(buf)) {
-			return id
+			return i + 1
 		}
 	}
 	return 0
